@@ -29,7 +29,7 @@ class SharedDecoratedTask(AsyncTaskiqDecoratedTask[_Params, _ReturnType]):
         return AsyncKicker(
             task_name=self.task_name,
             broker=broker,
-            labels=self.labels,
+            labels=dict(self.labels),
             return_type=self.return_type,
         )
 
